@@ -73,6 +73,37 @@ def checker (model : Bool) : Checker where
         else if model && !capOk then (some st', some s!"constructor capacity got {c}")
         else (some st', none)
       | _, _ => (none, some s!"bad-op-or-observation {op}")
+    | ["rangemut", ks, ds, ts] =>
+      -- Range whose callback, when shown index k, deletes the last element d times and appends ts
+      -- (copy-on-write lists only): Range shows the contents at invocation (Spec.step .range), the
+      -- nested calls are ordinary steps.
+      match st, ks.toNat?, ds.toNat?, parseInts ts, obsCap with
+      | some x, some k, some d, some tsv, some c =>
+        let shown := renderOut (if model then (x.step c .range).2 else (Spec.step x.vals .range).2)
+        let nested : List Op :=
+          if k < x.vals.length then (List.replicate d ()).map (fun _ => Op.len) else []
+        -- apply: d times delete(last), then append
+        let x' : AnyList :=
+          if k < x.vals.length then
+            let afterDel := (List.range d).foldl (fun (y : AnyList) _ =>
+              if model then (y.step c (.delete ((y.vals.length : Int) - 1))).1
+              else match y with
+                | .array a => .array ⟨⟨(Spec.step a.s.vals (.delete ((a.s.vals.length : Int) - 1))).1, a.s.cap⟩⟩
+                | .cow a => .cow ⟨⟨(Spec.step a.s.vals (.delete ((a.s.vals.length : Int) - 1))).1, a.s.cap⟩⟩
+                | .linked l => .linked (Spec.step l (.delete ((l.length : Int) - 1))).1) x
+            if model then (afterDel.step c (.append tsv)).1
+            else match afterDel with
+              | .array a => .array ⟨⟨a.s.vals ++ tsv, a.s.cap⟩⟩
+              | .cow a => .cow ⟨⟨a.s.vals ++ tsv, a.s.cap⟩⟩
+              | .linked l => .linked (l ++ tsv)
+          else x
+        let _ := nested
+        let got := resultTok obs
+        if shown ≠ got then (some x', some s!"Range during re-entrant writes must show the snapshot: want {shown} got {got}")
+        else if !same x'.vals then (some x', some s!"contents want {renderSlice x'.vals} len {x'.vals.length}")
+        else if model && x'.cap ≠ c then (some x', some s!"capacity want {x'.cap} got {c}")
+        else (some x', none)
+      | _, _, _, _, _ => (st, some s!"bad-op {op}")
     | _ =>
       match st, parseOp ws with
       | none, _ => (none, some "no-container")
